@@ -117,7 +117,9 @@ var errKinds = []string{"new", "ctx-deadline", "ctx-canceled", "wrapped-ctx-dead
 // isCtxErr is an error of a caller's own type that claims to be both context errors and a timeout.
 type isCtxErr struct{}
 
-func (isCtxErr) Error() string { return "verif: issuer unavailable (own error type, Is(context.Canceled|DeadlineExceeded))" }
+func (isCtxErr) Error() string {
+	return "verif: issuer unavailable (own error type, Is(context.Canceled|DeadlineExceeded))"
+}
 func (isCtxErr) Is(t error) bool {
 	return t == context.Canceled || t == context.DeadlineExceeded
 }
@@ -268,7 +270,7 @@ func (is *issuer) answer(ctx context.Context, idx int, pub *ecdsa.PublicKey) ([]
 			is.hwg.Add(1)
 			go func() {
 				defer is.hwg.Done()
-				for k := 0; k < 200; k++ {
+				for k := 0; k < 1000; k++ { // long enough to be still running when the renewal takes the write lock
 					if sv, err := is.src.GetX509SVID(); err != nil || sv == nil {
 						is.mu.Lock()
 						is.srcErrs = append(is.srcErrs, fmt.Sprintf("a consumer busy during renewal request %d got (%v, %v) from GetX509SVID", idx, sv, err))
@@ -854,7 +856,7 @@ type renewCase struct {
 	Script []response
 	Steps  []time.Duration
 	Dir    bool
-	Hammer int // that many goroutines start asking the SVID source (200 calls each) from inside every renewal request, so that consumers are busy on the source while the renewal completes and the new SVID is installed
+	Hammer int // that many goroutines start asking the SVID source (1000 calls each) from inside every renewal request, so that consumers are busy on the source while the renewal completes and the new SVID is installed
 }
 
 func (c renewCase) String() string {
